@@ -287,7 +287,7 @@ def _one(op, fields):
                        stderr=subprocess.STDOUT, text=True, timeout=120)
     lines = [l for l in p.stdout.split("\n") if l]
     il = lines[-1] if lines else "MISSING"   # ParsePath's debug line, if any, comes first
-    drv = os.path.join(C.LEAN, ".lake", "build", "bin", "vdriver")
+    drv = C.vdriver_exe()
     q = subprocess.run([drv], input="r\t" + op + "\t" + "\t".join(fields) + "\n", stdout=subprocess.PIPE,
                        stderr=subprocess.STDOUT, text=True, timeout=120)
     ml = q.stdout.strip("\n")
